@@ -5,6 +5,9 @@
    mirror; that part of the property is observed by the correspondence harness (panic hook,
    probe after every input), not proved — see C14_full. *)
 From DV Require Import Run_C14 C14P.
+From Coq Require Import String.
+Local Open Scope string_scope.
+Local Open Scope list_scope.
 
 (* the full statement, of which the theorems below carry the modelled part: for EVERY input of
    every entry point the implementation's observation (what the harness records) satisfies the
